@@ -2,7 +2,7 @@
  * from an arbitrary fileset state: <= 2 loaded entries, a setfile of <= 2 lines naming one-letter tables in directory "d",
  * each table present or missing on disk.  stat/fopen/getline/fclose/dirname and bsearch/qsort are modelled by their contracts. */
 #include <sys/stat.h>
-#include "/repo/libmy/my_fileset.c"
+#include "libmy/my_fileset.c"
 #include "spec/ghost.h"
 /* string functions by their definitions, for the short names used here (paths are at most 5 characters); fixed-size objects */
 size_t strlen(const char *s) { size_t n = 0; while (n < 8 && s[n]) n++; return n; }
